@@ -23,6 +23,8 @@ package mgr
 // NewGroup is total: nil and typed-nil entries are skipped, never dereferenced.
 //@ func NewGroup
 //@   ensures group [C20]: result != nil
+//@   invariant 1 kept-are-real [C20]: forall j int :: 0 <= j && j < len(g.modules) ==> (g.modules[j] != nil && g.modules[j].mgr != nil && nonnil(g.modules[j].module))
+//@   ensures only-real-modules-kept [C20]: forall j int :: 0 <= j && j < len(result.modules) ==> (result.modules[j] != nil && result.modules[j].mgr != nil && nonnil(result.modules[j].module))
 
 //@ type Manager
 //@   invariant context [C13]: nonnil(self.ctx)
